@@ -1,5 +1,6 @@
 import AdfObdd.StreamFull
 import AdfObdd.StreamChain
+import AdfObdd.StreamBounded
 /-! # C19 — the streaming mirror reproduces the producer's node table under every schedule
 
 `StreamF.recv` is a literal model of `Bdd::recv`; channels are FIFO lists; an event sequence is
@@ -14,7 +15,24 @@ which the three stores are fresh.  The `_store` versions take a real diagram sto
 additionally `poll i t` for every store and `dropFrom i` (the stores from `i` on are dropped: store `i-1` keeps
 forwarding into a channel without receiver, the failing `send` is ignored as in the code).  `chain_*` are
 the statements for every `k` and every schedule; the one-relay system above is the chain of length 2
-(`one_relay_is_chain2`). -/
+(`one_relay_is_chain2`).
+
+**ASSUMPTION: unbounded forwarding channels** (second review, C19 row 6). Every channel of the model
+— producer → scheduler (`pend`), the inboxes `q` of the stores (`StreamChain.lean`:50-55, `feed`
+appends without limit) — is an unbounded FIFO list, i.e. `crossbeam_channel::unbounded()`, the only
+kind the repository itself creates (lib.rs:174, frontend.rs:103/159/160 tests). The channels are
+supplied by the CALLER of `with_sender` / `with_receiver` / `with_sender_receiver`; with a
+`bounded(cap)` channel the `send` inside `Bdd::recv` (frontend.rs:74) and inside `Bdd::node` blocks
+while the next inbox is full. A relay blocked there has pushed the node but not forwarded it — a
+state no `StreamC.Chain` represents (it violates `RInv`: `tbl_{i+1} ++ q_{i+1} = tbl_i`), and a
+chain whose last store stops polling then deadlocks everything before it. So ALL theorems of this
+file are statements about unbounded channels (or, equivalently, about bounded ones that never fill
+up). For bounded channels only SAFETY is proved, on a separate model (`StreamBounded.lean`, `recv`
+one message at a time with a `blocked` state, `resume` events): `bounded_forwarding` — conservation
+up to the nodes in flight, every table a prefix of the producer's, no inbox above the bound, under
+every schedule; `bounded_blocked_state` exhibits the unrepresentable state. NOT carried over to
+bounded channels: `chain_poll_found`, the drain theorems, independence of downstream (a full inbox
+behind a store DOES influence it), and any liveness claim. -/
 namespace C19
 open StreamF
 
@@ -385,6 +403,32 @@ example : StreamC.pevsValid [.op (.var 0), .ev (.deliver 1), .op (.not 2), .ev (
   simp [StreamC.pevsValid, Op.valid, VBOT]
 
 end C19
+namespace C19
+
+/-- the chain with forwarding channels of capacity `cap ≥ 1`
+(`StreamB`: `recv` blocks in `send` while the next inbox is full, `resume` completes the pending
+`send`): under every schedule conservation holds up to the nodes in flight, every store's table is
+a prefix of the producer's, no inbox exceeds the bound -/
+def bounded_forwarding_statement : Prop := StreamB.bounded_forwarding_statement
+
+/-- **safety with bounded forwarding channels**, every capacity, chain length and schedule -/
+theorem bounded_forwarding : bounded_forwarding_statement := StreamB.bounded_forwarding
+
+/-- the state the unbounded model cannot represent, on a concrete schedule (capacity 1, two
+relays): store 0 holds `[0,1,7,8]` and is blocked in `send(8)`, store 1 holds `[0,1]` with inbox
+`[7]` — `tbl₁ ++ q₁ ≠ tbl₀`; after store 1 polls and the send is resumed, store 0's interrupted
+`recv` returns `true` and conservation is restored -/
+theorem bounded_blocked_state :
+    let s := StreamB.run 1 StreamB.exSched (StreamB.BChain.init [0, 1] 2)
+    s.relays = [⟨[], [0, 1, 7, 8], some (8, 3)⟩, ⟨[7], [0, 1], none⟩] ∧
+    (∀ r0 r1, s.relays = [r0, r1] → r1.tbl ++ r1.q ≠ r0.tbl) ∧
+    (StreamB.stepEv 1 (StreamB.run 1 (StreamB.exSched ++ [.poll 1 2]) (StreamB.BChain.init [0, 1] 2)) (.resume 0)).2 = some true ∧
+    (StreamB.run 1 (StreamB.exSched ++ [.poll 1 2, .resume 0]) (StreamB.BChain.init [0, 1] 2)).relays =
+      [⟨[], [0, 1, 7, 8], none⟩, ⟨[8], [0, 1, 7], none⟩] := StreamB.blocked_state_example
+
+end C19
+#print axioms C19.bounded_blocked_state
+#print axioms C19.bounded_forwarding
 #print axioms C19.chain_mirror_prefix
 #print axioms C19.chain_poll_found
 #print axioms C19.chain_drained_equal
